@@ -31,6 +31,10 @@ pub fn cores() -> Vec<(&'static str, Exp)> {
         ("max{x,5}", Exp::Max(vec![x(), num(5.0)])),
         ("min{2,1}", Exp::Min(vec![num(2.0), num(1.0)])),
         ("abs{x}+abs{x-2}", bin(BinOp::Add, Exp::Abs(x().to_box()), Exp::Abs(bin(BinOp::Sub, x(), num(2.0)).to_box()))),
+        // operands that differ only by a constant, or only by a factor
+        ("min{x+1,x+3}", Exp::Min(vec![bin(BinOp::Add, x(), num(1.0)), bin(BinOp::Add, x(), num(3.0))])),
+        ("max{x-1,x+2,b}", Exp::Max(vec![bin(BinOp::Sub, x(), num(1.0)), bin(BinOp::Add, x(), num(2.0)), b()])),
+        ("min{2x,x}", Exp::Min(vec![bin(BinOp::Mul, num(2.0), x()), x()])),
         ("max{x,b}", Exp::Max(vec![x(), b()])),
         ("min{x,2b}", Exp::Min(vec![x(), bin(BinOp::Mul, num(2.0), b())])),
         ("abs{x-b}", Exp::Abs(bin(BinOp::Sub, x(), b()).to_box())),
